@@ -1,5 +1,5 @@
 use crate::element::SvgElement;
-use crate::position::LocSpec;
+use crate::position::{BoundingBox, LocSpec};
 use crate::types::{attr_split_cycle, fstr, strp};
 
 use crate::errors::{Result, SvgdxError};
@@ -36,7 +36,10 @@ fn text_string(text_value: &str) -> String {
     result
 }
 
-fn get_text_position(element: &mut SvgElement) -> Result<(f32, f32, bool, LocSpec, Vec<String>)> {
+fn get_text_position(
+    element: &mut SvgElement,
+    element_bbox: Option<BoundingBox>,
+) -> Result<(f32, f32, bool, LocSpec, Vec<String>)> {
     let mut t_dx = 0.;
     let mut t_dy = 0.;
     {
@@ -143,7 +146,9 @@ fn get_text_position(element: &mut SvgElement) -> Result<(f32, f32, bool, LocSpe
     // A <text> element keeps its own `transform`, so it is anchored in its own user
     // space; text generated for a shape does not get the shape's transform, so it
     // is placed where the transformed shape is.
-    let anchor_bbox = if element.name == "text" {
+    let anchor_bbox = if element_bbox.is_some() {
+        element_bbox
+    } else if element.name == "text" {
         element.local_bbox()?
     } else {
         element.bbox()?
@@ -157,7 +162,12 @@ fn get_text_position(element: &mut SvgElement) -> Result<(f32, f32, bool, LocSpe
     Ok((tdx, tdy, outside, text_anchor, text_classes))
 }
 
-pub fn process_text_attr(element: &SvgElement) -> Result<(SvgElement, Vec<SvgElement>)> {
+/// `element_bbox` is given for an element whose box can't be told from its own
+/// attributes (a `use` has the box of what it refers to).
+pub fn process_text_attr(
+    element: &SvgElement,
+    element_bbox: Option<BoundingBox>,
+) -> Result<(SvgElement, Vec<SvgElement>)> {
     // Different conversions from line count to first-line offset based on whether
     // top, center, or bottom justification.
     const WRAP_DOWN: fn(usize, f32) -> f32 = |_count, _spacing| 0.;
@@ -171,7 +181,7 @@ pub fn process_text_attr(element: &SvgElement) -> Result<(SvgElement, Vec<SvgEle
 
     let text_value = get_text_value(&mut orig_elem);
 
-    let (tdx, tdy, outside, text_loc, mut text_classes) = get_text_position(&mut orig_elem)?;
+    let (tdx, tdy, outside, text_loc, mut text_classes) = get_text_position(&mut orig_elem, element_bbox)?;
 
     let x_str = fstr(tdx);
     let y_str = fstr(tdy);
